@@ -201,8 +201,8 @@ theorem serializer_failure_contained (env : Env) (hh : ∀ d k, env.destFails d 
   simp only
   have q := quiet_serializeFields env ss w m
   -- write_traceback: no extractor, so exactly one log call
-  have hgf : World.getFields env FUEL (serializeFields env w ss m).1 e = ((serializeFields env w ss m).1, []) := by
-    simp [FUEL, World.getFields, hx]
+  have hgf : World.getFields env (serializeFields env w ss m).1 e = ((serializeFields env w ss m).1, []) := by
+    simp [World.getFields, hx]
   unfold World.writeTraceback
   rw [hgf]
   simp only
